@@ -51,6 +51,8 @@
 //     "", `==` is equality of renderings; `(Option String)` for an interface:
 //     `none` is nil, `some t` a value whose dynamic type prints as `t` —
 //     and methods called on them are opaque calls;
+//   - a keyed literal `T{f: v}` / `&T{f: v}` of a translated struct type is a
+//     structure instance (`some …` for `&`), omitted fields are zero;
 //   - []error literals, append on them and errors.Join are lists of optional
 //     texts and "first non-nil" (errors.Join is non-nil iff an element is);
 //   - any other call is *opaque*: its result becomes an extra parameter of the
@@ -599,6 +601,9 @@ func (c *fctx) expr(e ast.Expr) ex {
 		return c.selector(x)
 	case *ast.UnaryExpr:
 		a := c.expr(x.X)
+		if _, isLit := x.X.(*ast.CompositeLit); isLit && x.Op == token.AND && strings.HasPrefix(c.t.leanType(c.typeOf(x)), "(Option S_") {
+			return c.bindN([]ex{a}, func(s []string) string { return "(some " + s[0] + ")" })
+		}
 		switch x.Op {
 		case token.NOT:
 			return c.bindN([]ex{a}, func(s []string) string { return "(!" + s[0] + ")" })
@@ -622,6 +627,9 @@ func (c *fctx) expr(e ast.Expr) ex {
 			}
 			return c.bindN(xs, func(s []string) string { return "[" + strings.Join(s, ", ") + "]" })
 		}
+		if st, ok := c.typeOf(x).Underlying().(*types.Struct); ok && strings.HasPrefix(c.t.leanType(c.typeOf(x)), "S_") {
+			return c.structLit(x, st)
+		}
 		if n, ok := c.typeOf(x).(*types.Named); ok && len(x.Elts) == 0 && n.Obj().Pkg() != nil && c.t.symb[n.Obj().Pkg().Path()+"."+n.Obj().Name()] != "" {
 			return ex{code: c.zero(n)}
 		}
@@ -640,6 +648,48 @@ func (c *fctx) expr(e ast.Expr) ex {
 	}
 	fail("expression %s (%T)", c.show(e), e)
 	return ex{}
+}
+
+// structLit translates a keyed literal `T{f: v, …}` of a translated struct
+// type: the given fields are evaluated in the order of the literal, the other
+// fields are zero; elements of fields the structure does not have (abstract
+// types) must be call-free and are dropped.
+func (c *fctx) structLit(x *ast.CompositeLit, st *types.Struct) ex {
+	var xs []ex
+	var names []string
+	given := map[string]bool{}
+	for _, el := range x.Elts {
+		kv, ok := el.(*ast.KeyValueExpr)
+		if !ok {
+			fail("unkeyed struct literal %s", c.show(x))
+		}
+		ft := c.typeOf(kv.Value)
+		for i := 0; i < st.NumFields(); i++ {
+			if st.Field(i).Name() == kv.Key.(*ast.Ident).Name {
+				ft = st.Field(i).Type()
+			}
+		}
+		if c.t.leanType(ft) == "" {
+			if hasCall(kv.Value) {
+				fail("call in dropped field %s", c.show(kv))
+			}
+			continue
+		}
+		xs, names = append(xs, c.exprAs(kv.Value, ft)), append(names, kv.Key.(*ast.Ident).Name)
+		given[kv.Key.(*ast.Ident).Name] = true
+	}
+	return c.bindN(xs, func(s []string) string {
+		var parts []string
+		for i, n := range names {
+			parts = append(parts, leanIdent(n)+" := "+s[i])
+		}
+		for i := 0; i < st.NumFields(); i++ {
+			if f := st.Field(i); !given[f.Name()] && c.t.leanType(f.Type()) != "" {
+				parts = append(parts, leanIdent(f.Name())+" := "+c.zero(f.Type()))
+			}
+		}
+		return "({ " + strings.Join(parts, ", ") + " } : " + c.t.leanType(c.typeOf(x)) + ")"
+	})
 }
 
 // opaqueValue turns an expression the subset cannot express (an element of a
